@@ -172,7 +172,12 @@ def wrap_tick(b, nid, ctx):
 
     def tick():
         ctx.trace.append("E%d" % nid)
+        seq = getattr(ctx, "mseq", None)
+        if seq is not None:
+            seq.append("e%d" % nid)
         for node in orig():
+            if node is b and seq is not None:
+                seq.append("z%d:%s" % (nid, ST[b.status]))     # the status it came out of its tick with
             yield node
 
     b.tick = tick
@@ -467,6 +472,8 @@ class LogVisitor(py_trees.visitors.VisitorBase):
 
     def run(self, behaviour):
         self.r.mlog.append("vr%d:%s:%s" % (self.j, self.r.ctx.nid.get(behaviour.id, "?"), ST[behaviour.status]))
+        if not self.full and getattr(self.r.ctx, "mseq", None) is not None:
+            self.r.ctx.mseq.append("v%d:%s:%s" % (self.j, self.r.ctx.nid.get(behaviour.id, "?"), ST[behaviour.status]))
 
     def finalise(self):
         self.r.mlog.append("vf%d" % self.j)
@@ -488,6 +495,8 @@ def _mgr_config(self, toks):
 
             def run(b, orun=orun, j=j):
                 self.mlog.append("vr%d:%s:%s" % (j, self.ctx.nid.get(b.id, "?"), ST[b.status]))
+                if getattr(self.ctx, "mseq", None) is not None:
+                    self.ctx.mseq.append("v%d:%s:%s" % (j, self.ctx.nid.get(b.id, "?"), ST[b.status]))
                 orun(b)
 
             def finalise(of=of, j=j):
@@ -510,6 +519,7 @@ def _mtick(self, toks):
     d = dict(t.split("=", 1) for t in toks[1:] if "=" in t)
     ctx.outcomes, ctx.guards, CLOCK.now = tick_args(toks[1:])
     self.mlog = []
+    ctx.mseq = []      # merged sequence of tick entries (e), own yields (z) and ordinary visitor runs (v): oracle only
     # the traversal's yields are observed by an extra ordinary visitor appended for the duration of this tick
     spy = py_trees.visitors.VisitorBase(full=False)
     spy.run = lambda b: ctx.trace.append("Y%s:%s" % (ctx.nid.get(b.id, "?"), ST[b.status]))
@@ -534,7 +544,9 @@ def _mtick(self, toks):
     sn = self.snap
     v = "V %s | %s | %s" % ((pairs(sn.visited), pairs(sn.previously_visited), "1" if sn.changed else "0")
                            if sn is not None else ("?", "?", "?"))
-    return ["L " + " ".join(self.mlog), "K %d" % self.tree.count, v] + report(self.root, ctx)
+    q = "Q " + " ".join(ctx.mseq)
+    ctx.mseq = None
+    return ["L " + " ".join(self.mlog), "K %d" % self.tree.count, v, q] + report(self.root, ctx)
 
 
 def _setup_shutdown(self, op):
